@@ -284,6 +284,12 @@ def it_iterator(ctx, rep):
             disarm = ("field", ("param", 1), A.f_it_rx) in takes
             need_unsub = sub is not None and sub == "Some"
             good = disarm and (len(uns) == (1 if need_unsub else 0)) and ("field", ("param", 1), A.f_it_sub) in takes
+            # already finished: the receiver slot was found empty (`self.iter_rx.as_ref()?`).  The
+            # receiver is only ever emptied together with the handle (the other None paths,
+            # checked here), so there is nothing left to detach.
+            rx_none = _dec(p, lambda k: k[0] == "discr" and any(st == ("field", ("param", 1), A.f_it_rx) for st in subterms(k[1])))
+            if not good and rx_none is not None and str(rx_none).lstrip("*") in ("None", "Break") and not uns and not rv:
+                good = True
             rep.check(good, "IT3", "none-disarms-and-detaches", ctx.where(nx), "path [%s] returns None after unsubscribing (if still subscribed) and dropping the receiver: fused" % p.describe(),
                       "path [%s] returns None but receiver dropped=%s, unsubscribe calls=%d (handle present=%s)" % (p.describe(), disarm, len(uns), need_unsub))
             for u in uns:
